@@ -3,7 +3,7 @@
 use rosu_map::{
     section::{
         general::GameMode,
-        hit_objects::{PathControlPoint, PathType},
+        hit_objects::{BorrowedCurve, CurveBuffers, PathControlPoint, PathType},
     },
     util::Pos,
 };
@@ -142,4 +142,14 @@ pub fn describe(pts: &[PathControlPoint]) -> String {
 
 pub fn mode_of(i: usize) -> GameMode {
     MODES[i % 4]
+}
+
+/// Leave the scratch buffers in the state a previous *borrowed* computation leaves them in (path and
+/// lengths of an unrelated curve still inside): the next computation must not depend on it.
+pub fn dirty(r: &mut Rng, bufs: &mut CurveBuffers) {
+    let pts = random_points(r);
+    let mode = MODES[r.below(4)];
+    let l = if r.chance(1, 2) { None } else { Some(r.f() * 300.0) };
+    let c = BorrowedCurve::new(mode, &pts, l, bufs);
+    std::hint::black_box(c.dist());
 }
